@@ -28,6 +28,9 @@ def obligations(tier):
     for ua in range(len(C09.URI_ATTRS) if not q else 4):
         obs.append(Ob("C09.uri-gate/%s" % (C09.URI_ATTRS[ua][1] if C09.URI_ATTRS[ua][0] is None else "ns-" + C09.URI_ATTRS[ua][1]), "crosshair", "harness.C09:uri_gate", T, param={"uattr": ua, "len": 3 if q else 4},
                       bounds="URI attribute %r with a value of <= %d characters over a 16-character URL class alphabet (letters, ':', TAB, LF, space, NUL, '/', '&', U+FFFD, NBSP, ...); allowed protocols {a, ab}" % (C09.URI_ATTRS[ua], 3 if q else 4), encodes=[SAN + "allowed_token", "urllib.parse.urlparse"]))
+    for a0 in range(len(C09.URI_ATTRS)):
+        obs.append(Ob("C09.uri-gate-multi/first-%02d" % a0, "crosshair", "harness.C09:uri_gate_multi", T, param={"a0": a0, "nmulti": 2 if q else 3},
+                      bounds="1..2/3 distinct URI-valued attributes on one element (first = %r), each with one of 4 forbidden URLs or a harmless value" % (C09.URI_ATTRS[a0],), encodes=[SAN + "allowed_token"]))
     for si in range(len(C09.SCHEMES)):
         obs.append(Ob("C09.uri-gate-default/%02d" % si, "crosshair", "harness.C09:uri_gate_default", T, param={"scheme": si, "hole": 1 if q else 2},
                       bounds="href = %r with a hole of <= %d characters over the URL class alphabet at every position, with/without a tail; default allow-lists" % (C09.SCHEMES[si], 1 if q else 2), encodes=[SAN + "allowed_token", "html5lib/filters/sanitizer.py:data_content_type"]))
